@@ -488,9 +488,12 @@ func c17RawCarSub() *engine.Sub {
 	for _, x := range []string{"X01", "X0101", "X010171", "X01017112", "X0101711220", "X12", "X1220", "Xff", "XCIDA", "XCIDA00", "XCIDAa0"} {
 		layouts = append(layouts, x+",A,B", "A,"+x+",B", "A,B,"+x, x)
 	}
+	// raw zero bytes where a section should start: one, a few, many, as many as the section of C occupies (the last entry
+	// overwritten with zeros from its length prefix to the end of the file), at the end and in the middle
+	layouts = append(layouts, "A,B,Z1", "A,B,Z2", "A,B,Z9", "A,B,Z300", "A,B,ZC", "A,ZC,B", "Z1", "ZC", "A,Z1,B")
 	return &engine.Sub{
 		Name:  "hand-built-car-files",
-		Rule:  "CAR streams assembled by the harness from a header and sections (cid || data): duplicates of a block, blocks stored under the CID of ANOTHER block of the same file at every relative position, and complete sections that hold no (cid, token) pair (the first 1-5 bytes of a CID, a CID without data, a CID plus one byte) before, between and after intact entries. A file containing such a section or a block whose CID does not hash to its data must be rejected by all four CAR readers; a file with honest duplicates reads as the set of its tokens; never a partial set; non-trivial = all",
+		Rule:  "CAR streams assembled by the harness from a header and sections (cid || data; also runs of zero bytes where a section should start - an entry overwritten with zeros): duplicates of a block, blocks stored under the CID of ANOTHER block of the same file at every relative position, and complete sections that hold no (cid, token) pair (the first 1-5 bytes of a CID, a CID without data, a CID plus one byte) before, between and after intact entries. A file containing such a section or a block whose CID does not hash to its data must be rejected by all four CAR readers; a file with honest duplicates reads as the set of its tokens; never a partial set; non-trivial = all",
 		Bound: func(string) string { return fmt.Sprintf("%d layouts over 3 tokens x 4 CAR readers", len(layouts)) },
 		Gen: func(tier string, emit func(any) bool) {
 			for _, l := range layouts {
@@ -519,6 +522,18 @@ func c17RawCarSub() *engine.Sub {
 			honest := true
 			var present []string
 			for _, sec := range strings.Split(cs.Layout, ",") {
+				if sec[0] == 'Z' {
+					honest = false
+					n := 0
+					if sec == "ZC" {
+						body := len(toks["C"].Cid.Bytes()) + len(toks["C"].Sealed)
+						n = len(uv(body)) + body
+					} else {
+						fmt.Sscanf(sec[1:], "%d", &n)
+					}
+					car = append(car, make([]byte, n)...)
+					continue
+				}
 				if sec[0] == 'X' {
 					honest = false
 					var body []byte
@@ -565,7 +580,9 @@ func c17RawCarSub() *engine.Sub {
 					case !honest:
 						ctx.Outcome("mislabelled-accepted")
 						cls, what := "car-block-under-another-blocks-cid-accepted", "a block stored under the CID of another block of the file"
-						if strings.Contains(cs.Layout, "X") {
+						if strings.Contains(cs.Layout, "Z") {
+							cls, what = "car-zeroed-entry-accepted", "an entry overwritten with zero bytes (a section of length zero)"
+						} else if strings.Contains(cs.Layout, "X") {
 							cls, what = "car-section-without-a-token-accepted", "a section that holds no (cid, token) pair"
 						}
 						ctx.Failf(cs, cls, "CAR %s (%s, stream=%v): %s is not detected; %d entries returned", cs.Layout, format, stream, what, len(r))
